@@ -43,6 +43,10 @@ func ValidatePort(portStr string) (string, error) {
 	// Validate port is a number
 	portNum, err := strconv.Atoi(port)
 	if err != nil {
+		if errors.Is(err, strconv.ErrRange) && strings.Trim(port, "0123456789") == "" {
+			// a numeral too large for int is still a number: out of range, not malformed
+			return "", ErrPortOutOfRange
+		}
 		return "", fmt.Errorf("%w: port must be a number", ErrInvalidFormat)
 	}
 
